@@ -892,7 +892,7 @@ class VectorDerivative(SymDerivative, VectorExpr):  # type: ignore[misc]
         if is_vector_expr(symbol):
             return SymDerivative(self, symbol, evaluate=False)
 
-        return super().diff(symbol)
+        return super()._eval_derivative(symbol)
 
 
 def vector_diff(expr: Expr, *variables: Expr, **kwargs: Any) -> Expr:
